@@ -66,6 +66,38 @@ func famCache(r *rng) []string {
 	if r.intn(3) == 0 { // non-deterministic extension must never be served from the cache
 		res = append(res, "rf = func(n){ rand(1) + n }", "println(rf(1) == 1, rf(1) == 1)")
 	}
+	if r.intn(3) == 0 { // memoized recursion: named (hits at every level), bound by assignment (the nested frame finds the
+		// caller's reference, which counts as a miss: never stored), through self; printing bodies replay their output
+		n := 3 + r.intn(6)
+		res = append(res, pickS(r,
+			"func fb(n){ if n <= 1 {return n}; fb(n-1) + fb(n-2) }",
+			"fb = func(n){ if n <= 1 {return n}; fb(n-1) + fb(n-2) }",
+			"fb = func(n){ if n <= 1 {return n}; self(n-1) + self(n-2) }",
+			"func fb(n){ print(n, \"\"); if n <= 1 {return n}; fb(n-1) + fb(n-2) }"),
+			fmt.Sprintf("println(fb(%d), fb(%d), fb(%d))", n, n+1, n))
+	}
+	if r.intn(3) == 0 { // a memoized call whose callee is reached through a function-valued outer variable that is only READ,
+		// and a call that writes an outer NON-function variable through a reference it first read (never stored)
+		res = append(res, "hp = func(a){ a + 1 }", "cw = func(n){ hp(n) * 2 }", "println(cw(3), cw(3))",
+			"tot2 = 0", "ad = func(n){ t = tot2; tot2 = t + n; tot2 }", "println(ad(2), ad(2), tot2)")
+	}
+	if r.intn(3) == 0 { // a call that WRITES an outer variable holding a function (fixed 0f2eeb4: such a call used to be stored and
+		// a later hit skipped the write): by assignment of a function, of a plain value, by an inner named function, after
+		// reading it, by del; called twice with equal arguments with the variable restored in between
+		a := 1 + r.intn(5)
+		defT := pickS(r, "tg = func(){1}", "func tg(){1}", "tg = () => 1")
+		wr := pickS(r,
+			"wr = func(x){ tg = func(){2}; x }",
+			"wr = func(x){ tg = x; x }",
+			"func wr(x){ func tg(){2}; x }",
+			"wr = func(x){ h = tg; tg = func(){ h() + x }; x }",
+			"wr = func(x){ del(tg); x }",
+			"wr = func(x){ in = func(){ tg = func(){x} }; in(); x }")
+		// never the wording of an error, neither printed nor left in a global
+		obs := fmt.Sprintf("println(catch(tg()).err, catch(tg()).value == 1, catch(tg()).value == 2, catch(tg()).value == %d, catch(tg()).value == %d)", a, a+1)
+		res = append(res, defT, wr, fmt.Sprintf("wr(%d)", a), obs, defT, fmt.Sprintf("wr(%d)", a), obs,
+			fmt.Sprintf("tg = %d", a), fmt.Sprintf("wr(%d)", a), obs)
+	}
 	res = append(res, call)
 	return res
 }
